@@ -28,7 +28,7 @@ type Config struct {
 	// runs first (computed in a first pass with FieldPostcondition); replaces the raw source.
 	FieldPost map[string]AV
 	// IntSize is the size of int/uint in bits (32 on GOARCH=386).
-	IntSize int
+	IntSize  int
 	InModule func(fn *ssa.Function) bool
 	// StreamSlice reports whether the bytes behind slice/array value v may come from the input
 	// stream (points-to based). nil: every []byte load is considered stream data.
@@ -68,21 +68,21 @@ type atKey struct {
 
 // Engine is the analysis state.
 type Engine struct {
-	cfg     Config
-	fs      map[*ssa.Function]*fstate
-	order   []*ssa.Function
-	fields  map[fieldKey]AV
-	globals map[*ssa.Global]AV // element ranges of package-level tables
-	allocEl map[ssa.Value]AV   // element ranges of init-time allocations feeding globals
-	changed bool
-	Rounds  int
-	callers map[*ssa.Function][]callSite
-	elems   map[fieldKey]AV    // element summaries of array/slice fields
-	zeroDef map[fieldKey]bool  // field may still hold its zero value (some allocation leaves it unset)
-	allocsOf map[*types.TypeName]bool
-	elemObj  map[any]AV // element summaries per memory object
-	guarded  map[fieldKey]bool // the field is compared in some branch condition of analysed code
-	outcomeMemo map[outcomeKey][]AV
+	cfg             Config
+	fs              map[*ssa.Function]*fstate
+	order           []*ssa.Function
+	fields          map[fieldKey]AV
+	globals         map[*ssa.Global]AV // element ranges of package-level tables
+	allocEl         map[ssa.Value]AV   // element ranges of init-time allocations feeding globals
+	changed         bool
+	Rounds          int
+	callers         map[*ssa.Function][]callSite
+	elems           map[fieldKey]AV   // element summaries of array/slice fields
+	zeroDef         map[fieldKey]bool // field may still hold its zero value (some allocation leaves it unset)
+	allocsOf        map[*types.TypeName]bool
+	elemObj         map[any]AV        // element summaries per memory object
+	guarded         map[fieldKey]bool // the field is compared in some branch condition of analysed code
+	outcomeMemo     map[outcomeKey][]AV
 	localStructMemo map[*ssa.Alloc]bool
 }
 
@@ -622,7 +622,6 @@ func (e *Engine) evalFunc(s *fstate, round int) {
 		}
 	}
 }
-
 
 // iterate: intraprocedural fixpoint of the value map of s (no publishing).
 func (e *Engine) iterate(s *fstate) {
@@ -2307,7 +2306,9 @@ func okReturnReachableAvoiding(fn *ssa.Function, from *ssa.BasicBlock, avoid map
 }
 
 // FieldMayBeZero reports whether the field may still hold its zero value somewhere.
-func (e *Engine) FieldMayBeZero(tn *types.TypeName, f int) bool { return e.hasZeroDefault(fieldKey{tn, f}) }
+func (e *Engine) FieldMayBeZero(tn *types.TypeName, f int) bool {
+	return e.hasZeroDefault(fieldKey{tn, f})
+}
 
 // Analysed reports whether fn is part of the analysed set.
 func (e *Engine) Analysed(fn *ssa.Function) bool { return e.fs[fn] != nil }
